@@ -183,6 +183,9 @@ func (h *Harness) Handle(ctx *fasthttp.RequestCtx) {
 		rec.Header = append(rec.Header, [2]string{strings.ToLower(string(k)), string(v)})
 		rec.HdrBytes += len(k) + len(v) + 32
 	}
+	// the pseudo-header fields are part of the header list too (RFC 7540 6.5.2 sizes the list as sent): what the handler can
+	// see of them is the method and the request URI (the authority is the Host field counted above)
+	rec.HdrBytes += len(":method") + len(rec.Method) + 32 + len(":path") + len(rec.URI) + 32
 	rec.BodyLen = len(rec.Body)
 	rec.Tag = string(ctx.Request.Header.Peek("x-vtag"))
 	if rec.Tag == "" {
